@@ -22,4 +22,13 @@ def handleWl : List String → String
     | .crash e => "crash " ++ e
   | _ => "bad-op"
 
+/-- `wof <comment> <fname> <version> <copyright lines> <linelen> <spaces> <cont> item*` -/
+def handleWof : List String → String
+  | cm :: fn :: ver :: cr :: ll :: sp :: cont :: items =>
+    match writeOutputFile (decStr cm) (decStr fn) (decStr ver) (decStrs cr) ll.toNat! (decStr sp) (decStr cont)
+        (items.map decItem) with
+    | .ok ls => "ok " ++ encStrs ls
+    | .crash e => "crash " ++ e
+  | _ => "bad-op"
+
 end Driver
